@@ -939,7 +939,7 @@ class WorkflowConductor(object):
                 route,
                 ctxs=json_util.deepcopy(task_state_entry["ctxs"]["in"]),
                 prev=json_util.deepcopy(task_state_entry["prev"]),
-                retry=task_state_entry["retry"],
+                retry=json_util.deepcopy(task_state_entry["retry"]),
                 ready=True,
             )
 
